@@ -196,6 +196,25 @@ Theorem C04_exact_program_meets_spec :
 Proof. exact exact_program_end_to_end. Qed.
 Print Assumptions C04_exact_program_meets_spec.
 
+(* ... and for the formats with a rest-of-line field: SAM (11 mandatory fields + optional tags, repaired join) and
+   VCFBuffer2 (8 plain fields + FORMAT/genotype columns): every accepted program, replacements included, satisfies the
+   byte-level Spec — the tags / genotype columns pass through untouched *)
+Theorem C04_sam_program_end_to_end :
+  forall v recs p out,
+    v_samtab v = true -> recs <> [] -> Forall sam_rec_wf recs ->
+    Forall (fun r => Forall (fun c : list Z => c <> []) (skipn 11 (g_cols r))) recs ->
+    fields_ok 11 p = true ->
+    model_out_v v FSam (layout FSam recs) p = Some out -> spec_out_ok FSam recs p (Some out) = true.
+Proof. exact sam_program_end_to_end. Qed.
+Print Assumptions C04_sam_program_end_to_end.
+
+Theorem C04_vcf2_program_end_to_end :
+  forall v k recs p out,
+    (9 <= k)%nat -> recs <> [] -> Forall (rec_wf k) recs -> fields_ok 8 p = true ->
+    model_out_v v (FVcf 9) (layout (FVcf 9) recs) p = Some out -> spec_out_ok (FVcf 9) recs p (Some out) = true.
+Proof. exact vcf2_program_end_to_end. Qed.
+Print Assumptions C04_vcf2_program_end_to_end.
+
 (* SAMBuffer.join_fields (fix-2) as an ALGORITHM — join every column cell by cell, find the rows whose tag cell holds only
    its separator (lengths[n-1::n] == 1), delete the byte at cell_ends[row * n + n - 2] — written with the helpers the
    bridge ties to the source (m_sam_tag_empty, m_sam_cell_ends, m_sam_drop_cell), equals the model's abstract rendering
